@@ -1159,6 +1159,10 @@ def np_arange(interp, st, args, kwargs):
 @reg("numpy.diff")
 def np_diff(interp, st, args, kwargs):
     a = _val(st, args[0])
+    if isinstance(a, Obj):
+        aa = obj_as_array(interp, st, a)      # np.diff(DataArray): numpy's view of its values (np.asanyarray)
+        if aa is not NotImplemented:
+            a = aa
     if not isinstance(a, Arr) or a.ndim != 1:
         raise Unsupported("np.diff of non-1d")
     n = a.shape[0]
